@@ -45,7 +45,8 @@ GENERAL_SCALARS = [0.1, -0.3, 1.0 / 3, 2.5, -1.7, 0.7]
 
 
 def EXPECTED_BRANCHES(ctx=None):
-    return fc.history_expected_branches() + fc.wide_expected_branches('C09')
+    return (fc.history_expected_branches() + fc.wide_expected_branches('C09') +
+            fc.forms_expected_branches())
 
 # --------------------------------------------------------------------------
 # recipe generator (functionals WITH a gradient)
@@ -603,6 +604,7 @@ def run(ctx, deep=False):
                        n_pts=2 if quick else 3)
     fc.history_stream(ctx, 'C09', 12 if quick else 60)
     fc.wide_stream(ctx, 'C09', 2 if quick else 8)
+    fc.forms_stream(ctx, 'C09')
     outs = core.run_driver('C09', lines)
     compare(ctx, pend, outs)
     ctx.extra['model_lines'] = len(lines)
@@ -631,6 +633,8 @@ def replay(ctx, case):
         return fc.history_replay(case)
     if case.get('wide'):
         return fc.wide_replay(case)
+    if case.get('forms'):
+        return fc.forms_replay(ctx, case)
     """Re-run the oracle on one recorded case; returns a description if it still fails."""
     S = fc.get_space(case['space'])
     r = case['recipe']
